@@ -216,6 +216,20 @@ def gen(rng, tier):
                     ev += [{"t": "k", "sub": "", "code": act["mapping_down"], "val": 1}, {"t": "k", "sub": "", "code": act["mapping_down"], "val": 0}]
             d.update({"cfg": cfg, "events": ev, "leds": c17.gen_layout(rng, cfg), "close_us": 15000})
         scenarios.append({"devices": [d], "tag": "corpus-stale-release"})
+    # corpus: a sustained stream of key events (a few thousand, back to back) while the LED loop is refreshing: whatever window a frame
+    # leaves between two acquisitions of the device's locks is hit by some event
+    for _ in range(1 if tier == "quick" else 6):
+        d = gen_device(rng, "led")
+        notes = [kk for kk in d["cfg"]["mappings"][d["cfg"]["mapping"]]["midi"] if kk["code"] not in {a["code"] for a in d["cfg"]["actions"]}
+                 and kk["code"] not in d["cfg"]["exitseq"]][:2]
+        if notes:
+            ev = []
+            for i in range(1500 if tier == "quick" else 4000):
+                kk = notes[i % len(notes)]
+                ev += [{"t": "k", "sub": kk["sub"], "code": kk["code"], "val": 1}, {"t": "k", "sub": kk["sub"], "code": kk["code"], "val": 0}]
+            d["events"] = ev
+            d["midi_stream"] = True
+        scenarios.append({"devices": [d], "tag": "corpus-event-storm"})
     # corpus: a slow OpenRGB daemon, unplugged during the controller discovery (every phase of the first round trips)
     for early in ((60, 180, 330, 520) if tier == "quick" else (20, 60, 110, 180, 270, 330, 420, 520, 640, 760, 900, 1100)):
         d = gen_device(rng, "slowserver")
